@@ -16,7 +16,10 @@ const padElems = 4 // elements before and after the slice that must stay unchang
 // I is the pseudo-precision of []int operands (LAPACK pivot and index arrays).
 const I Prec = 4
 
-func (p Prec) elemSize() int { return [...]int{4, 8, 8, 16, 8}[p] }
+// Bo is the pseudo-precision of []bool operands (Dtrevc3's selected).
+const Bo Prec = 5
+
+func (p Prec) elemSize() int { return [...]int{4, 8, 8, 16, 8, 1}[p] }
 
 // region is a block of memory holding one operand: padElems elements, the
 // slice handed to the routine (starting at element off), then the rest.
@@ -71,6 +74,11 @@ func (r *region) fill(salt int) {
 		for i := range s {
 			s[i] = 0
 		}
+	case Bo:
+		s := unsafe.Slice((*bool)(r.ptr), r.total)
+		for i := range s {
+			s[i] = true
+		}
 	}
 	copy(r.snap, r.bytes)
 }
@@ -95,6 +103,8 @@ func typedSlice(p Prec, ptr unsafe.Pointer, n int) reflect.Value {
 		return reflect.ValueOf(unsafe.Slice((*complex64)(ptr), n))
 	case I:
 		return reflect.ValueOf(unsafe.Slice((*int)(ptr), n))
+	case Bo:
+		return reflect.ValueOf(unsafe.Slice((*bool)(ptr), n))
 	}
 	return reflect.ValueOf(unsafe.Slice((*complex128)(ptr), n))
 }
